@@ -25,9 +25,14 @@ MODELLED = ('OSError', 'ValueError', 'TypeError', 'UnicodeError', 'UnicodeEncode
             'UnicodeDecodeError', 'KeyError', 'IndexError', 'AttributeError', 'Exception')
 
 
+
+
+
+
 # rules of sibling properties that are necessary conditions of this one too
 # (evaluated by the sibling module on the same graphs, reported under this property)
-ALSO = {'C01': {'R01.2': 'an existing argument (no-follow) is never skipped as nonexistent'},
+ALSO = {'C01': {'R01.2': 'an existing argument (no-follow) is never skipped as nonexistent',
+         'R01.3': 'a move that did not happen ends in the failure path (not in Success)'},
  'C18': {'R18.1': 'existence is decided without following links'}}
 
 def exempt_reason(b, r, n, cls):
